@@ -27,6 +27,15 @@ fn main() {
         "dump" => {
             println!("{}", serde_json::to_string_pretty(&dump::dump()).unwrap());
         }
+        "libm" => {
+            // the values the theorems take as premises about the platform's math library (C05 C07 C18)
+            let v = [
+                f64::exp(f64::NEG_INFINITY), f64::exp(f64::INFINITY), f64::exp(f64::NAN), f64::exp(0.), f64::exp(-0.),
+                f64::min(f64::NAN, 1.), f64::min(f64::INFINITY, 1.), f64::max(0., f64::NAN), f64::powf(f64::INFINITY, 0.5),
+                f64::powf(0., 0.5), (1.0f64).acos(), (-1.0f64).acos(), f64::sin(0.), f64::cos(0.),
+            ];
+            println!("{}", v.iter().map(|x| common::hex(*x)).collect::<Vec<_>>().join(" "));
+        }
         "pipeline" => {
             let mut o = std::io::stdout();
             pipe::pipeline(&args, &mut o);
